@@ -227,3 +227,5 @@ func stackContains(s string) bool {
 	n := runtime.Stack(buf, true)
 	return strings.Contains(string(buf[:n]), s)
 }
+
+func runtimeStack(buf []byte) int { return runtime.Stack(buf, true) }
